@@ -5,6 +5,7 @@ package main
 import (
 	"fmt"
 	"math/big"
+	"strings"
 	"sync"
 
 	"verif/harness/adapt/groups"
@@ -24,7 +25,7 @@ type sc struct {
 }
 
 // scalars returns the scalar workload for group order r.
-func scalars(r *big.Int, rng *gen.Rng, nRand int, thorough bool) []sc {
+func scalars(r *big.Int, rng *gen.Rng, nRand int, thorough bool, extraLambdaSquares ...int64) []sc {
 	var out []sc
 	seen := map[string]bool{}
 	add := func(v *big.Int, cls string) {
@@ -73,6 +74,27 @@ func scalars(r *big.Int, rng *gen.Rng, nRand int, thorough bool) []sc {
 							v := new(big.Int).Mul(b, lam)
 							v.Mul(v, big.NewInt(sg)).Add(v, a).Mod(v, r)
 							add(v, fmt.Sprintf("glv-crafted(lambda%d)", si))
+						}
+					}
+				}
+			}
+		}
+	}
+	// same construction for other endomorphism eigenvalues lambda with lambda^2 = D mod r (bandersnatch: D = -2)
+	for _, D := range extraLambdaSquares {
+		if sq := new(big.Int).ModSqrt(new(big.Int).Mod(big.NewInt(D), r), r); sq != nil {
+			half := new(big.Int).Lsh(one, uint(n/2))
+			cands := []*big.Int{big.NewInt(1), new(big.Int).Lsh(one, 63), new(big.Int).Lsh(one, 64), new(big.Int).Lsh(one, 65), half, new(big.Int).Sub(half, one), new(big.Int).Lsh(half, 1)}
+			for si, lam := range []*big.Int{sq, new(big.Int).Sub(r, sq)} {
+				for ai, a := range append([]*big.Int{big.NewInt(0)}, cands...) {
+					for bi, b := range cands {
+						if !thorough && (ai+bi+si)%3 != 0 {
+							continue
+						}
+						for _, sg := range []int64{1, -1} {
+							v := new(big.Int).Mul(b, lam)
+							v.Mul(v, big.NewInt(sg)).Add(v, a).Mod(v, r)
+							add(v, fmt.Sprintf("glv-crafted(lambda^2=%d,%d)", D, si))
 						}
 					}
 				}
@@ -305,7 +327,11 @@ func runTE(c *mon.Ctx, g *te.Curve) {
 	rng := gen.New(c.Seed, "c03te/"+N)
 	C := g.C
 	f := g.F
-	S := scalars(g.Order, rng, c.Pick(6, 40), c.Thorough())
+	var extra []int64
+	if strings.Contains(N, "bandersnatch") {
+		extra = []int64{-2} // the GLV endomorphism of bandersnatch has eigenvalue sqrt(-2)
+	}
+	S := scalars(g.Order, rng, c.Pick(6, 40), c.Thorough(), extra...)
 	type bp struct {
 		p   oted.Pt
 		cls string
